@@ -81,7 +81,7 @@ class C03(pw.P21Check):
                 # lexical kinds edit the rendered line of the target
                 lines = [(k, info["raw_line"](toks) if k == tkey else toks) for k, toks in lines]
             seps = {k: v for k, v in rn["seps"].items() if not (k.rsplit(":", 1)[0] == tkey and "/*" in v)}
-            files["bad.p21"] = pm.render(lines, seps, rn.get("eol", "\n"))
+            files["bad.p21"] = pm.render(lines, seps, rn.get("eol", "\n"), rn.get("spell"))
             info = {k: v for k, v in info.items() if k != "raw_line"}
             plan["applied"] = info
         plan["files"] = files
